@@ -55,6 +55,9 @@ extern uint64_t pre_ncmp;
                    g_set_obj == OBJ(V_DATA(SS_VEC(s))) && g_set_off == OFF(V_DATA(SS_VEC(s))) && g_set_n == SS_VN(s) && \
                    REG_SLOT(0, 0) && REG_SLOT(1, 1) && REG_SLOT(2, 2) && REG_SLOT(3, 3) && REG_UNUSED_FROM(4) && REG_DISTINCT && \
                    AS_OK(0, &(s)->_set) && (SS_VN(s) == 0 || g_as[0].n == 0))
+/* a second SmallSet operand (swap): memory shape, vector invariant and its abstract set g_as[1]; no ranks needed */
+#define SS_REQ2(o) (V_FRESH(o, sizeof(*(o))) && V_WORDS_OK(SS_VEC(o)) && V_ALIGN_OK(SS_VEC(o)) && V_CELL_OK(SS_VEC(o)) && V_TOK_OK(SS_VEC(o)) && \
+                    AS_OK(1, &(o)->_set) && (SS_VN(o) == 0 || g_as[1].n == 0))
 /* the key's class is present (abstraction over both states) */
 #define SS_HAS_INLINE ((g_set_n > 0 && g_reg_rank[0] == g_key_rank) || (g_set_n > 1 && g_reg_rank[1] == g_key_rank) || (g_set_n > 2 && g_reg_rank[2] == g_key_rank) || (g_set_n > 3 && g_reg_rank[3] == g_key_rank))
 #define SS_INLINE_IDX (g_set_n > 0 && g_reg_rank[0] == g_key_rank ? 0 : (g_set_n > 1 && g_reg_rank[1] == g_key_rank ? 1 : (g_set_n > 2 && g_reg_rank[2] == g_key_rank ? 2 : 3)))
